@@ -7,6 +7,10 @@ From FP Require Import Model.Chars Model.Ast Model.Sexp Model.Compile
 Import ListNotations.
 Local Open Scope N_scope.
 
+(** the specification's reading of an octal escape (Spec/FindSem.v) is the model's *)
+Lemma scalar_or_zero_agree : forall v, Compile.scalar_or_zero v = FindSem.scalar_or_zero v.
+Proof. reflexivity. Qed.
+
 Ltac erase_lsts := repeat (rewrite erase_lst; cbn [map]).
 
 Section WithHost.
@@ -196,7 +200,7 @@ Proof.
     destruct x as [ | | | | | | | | | |v]; cbn [special_piece] in Hp; try discriminate Hp;
       injection Hp as <-; cbn [piece_value elem_text special_text app];
       try (rewrite format_sem_char by reflexivity; destruct (format_sem h t vs); reflexivity).
-    exact (format_sem_literal [v] t vs).
+    exact (format_sem_literal [Compile.scalar_or_zero v] t vs).
 Qed.
 
 Lemma format_sound : forall fmt ps f,
